@@ -85,7 +85,7 @@ package j5convert
 
 //@ spec func sortedStrs(s []string) bool = forall i int, j int :: 0 <= i && i < j && j < len(s) ==> s[i] <= s[j]
 //@ spec func nodupStrs(s []string) bool = forall i int, j int :: 0 <= i && i < j && j < len(s) ==> s[i] != s[j]
-//@ spec func inStrs(s []string, x string) bool = exists i int :: 0 <= i && i < len(s) && s[i] == x
+//@ spec opaque inStrs(s []string, x string) bool = exists i int :: 0 <= i && i < len(s) && s[i] == x
 
 //@ func (*fileContext).ensureImport
 //@   requires fb != nil && fb.fdp != nil && fb.fdp.Name != nil
@@ -96,4 +96,61 @@ package j5convert
 //@   ensures member: importPath != *fb.fdp.Name ==> inStrs(fb.fdp.Dependency, importPath)
 //@   ensures keeps: forall i int :: 0 <= i && i < old(len(fb.fdp.Dependency)) ==> inStrs(fb.fdp.Dependency, old(fb.fdp.Dependency[i]))
 //@   ensures idempotent: old(inStrs(fb.fdp.Dependency, importPath)) ==> len(fb.fdp.Dependency) == old(len(fb.fdp.Dependency))
+//@   ensures frame: fb.fdp == old(fb.fdp) && fb.fdp.Name == old(fb.fdp.Name) && *fb.fdp.Name == old(*fb.fdp.Name)
+//@   ensures mono: forall p string {old(inStrs(fb.fdp.Dependency, p))} :: old(inStrs(fb.fdp.Dependency, p)) ==> inStrs(fb.fdp.Dependency, p)
 //@   loop 0 invariant forall i int :: 0 <= i && i <= $iter - 1 && i < len(fb.fdp.Dependency) ==> fb.fdp.Dependency[i] != importPath
+
+// ---- field conversion (C07, C12, C04) ---------------------------------------------------------
+
+// the file being written is well formed and its import list only grows
+//@ spec func fileOK(ww *conversionVisitor) bool = ww != nil && ww.file != nil && ww.file.fdp != nil && ww.file.fdp.Name != nil && nodupStrs(ww.file.fdp.Dependency)
+//@ spec func imported(ww *conversionVisitor, p string) bool = inStrs(ww.file.fdp.Dependency, p) || p == *ww.file.fdp.Name
+//@ spec func fileKept(ww *conversionVisitor) bool = ww.file == old(ww.file) && ww.file.fdp == old(ww.file.fdp) && ww.file.fdp.Name == old(ww.file.fdp.Name) && *ww.file.fdp.Name == old(*ww.file.fdp.Name)
+//@ spec func importsKept(ww *conversionVisitor) bool = forall p string {old(inStrs(ww.file.fdp.Dependency, p))} :: old(inStrs(ww.file.fdp.Dependency, p)) ==> inStrs(ww.file.fdp.Dependency, p)
+
+//@ func (*conversionVisitor).resolveType
+//@   requires fileOK(ww)
+//@   ensures fileOK(ww) && fileKept(ww) && importsKept(ww)
+//@   ensures result1 == nil ==> result0 != nil
+
+// Type summaries name the file that defines the type; package files live in a package directory,
+// so the name contains a "/" (ASSUMPTION about the summaries built by the package loader).
+//@ func (*rootContext).resolveTypeNoImport
+//@   opt assumed summaries
+//@   modifies nothing
+//@   ensures result1 == nil ==> result0 != nil && result0.File != "" && contains(result0.File, "/")
+
+//@ func enumTypeRef
+//@   ensures result != nil
+//@ func oneofTypeRef
+//@   ensures result != nil
+//@ func objectTypeRef
+//@   ensures result != nil
+
+// setJ5Ext copies the typed j5 extension by protobuf reflection (field names looked up at run
+// time): outside the verifiable subset. Its contract is an ASSUMPTION, listed as such: it sets
+// (j5.ext.v1.field) to a FieldOptions whose oneof arm is the one named by fieldType, registers the
+// import, and touches nothing else of the file.
+//@ func (*conversionVisitor).setJ5Ext
+//@   opt assumed reflection
+//@   requires fileOK(ww) && dest != nil
+//@   ensures fileOK(ww) && fileKept(ww) && importsKept(ww)
+//@   ensures known: (fieldType == "object" || fieldType == "oneof" || fieldType == "enum" || fieldType == "bool" || fieldType == "bytes" || fieldType == "float" || fieldType == "integer" || fieldType == "key" || fieldType == "string" || fieldType == "timestamp" || fieldType == "array") ==> result != nil
+//@   ensures result != nil ==> extof(ext_j5pb.E_Field, dest) == result && imported(ww, "j5/ext/v1/annotations.proto")
+//@   ensures result == nil ==> extof(ext_j5pb.E_Field, dest) == old(extof(ext_j5pb.E_Field, dest))
+//@   ensures fieldType == "object" && result != nil ==> typeis(result.Type, *ext_j5pb.FieldOptions_Object) && as(*ext_j5pb.FieldOptions_Object, result.Type) != nil && as(*ext_j5pb.FieldOptions_Object, result.Type).Object != nil
+
+//@ func (*EnumRef).mapValues
+//@   modifies nothing
+
+// Every extension that ends up on the field's options has its defining file imported (otherwise the
+// generated file does not link), and every proto.SetExtension passes the extension's declared
+// message type (otherwise protobuf-go panics): the latter are the ext.value/ext.target obligations
+// generated at each call.
+//@ func buildField
+//@   requires fileOK(ww)
+//@   ensures file: fileOK(ww) && fileKept(ww) && importsKept(ww)
+//@   ensures result: result1 == nil ==> result0 != nil && result0.Options != nil
+//@   ensures importsValidate: result1 == nil && hasext(validate.E_Field, result0.Options) ==> imported(ww, "buf/validate/validate.proto")
+//@   ensures importsJ5Ext: result1 == nil && (hasext(ext_j5pb.E_Field, result0.Options) || hasext(ext_j5pb.E_Key, result0.Options)) ==> imported(ww, "j5/ext/v1/annotations.proto")
+//@   ensures importsList: result1 == nil && hasext(list_j5pb.E_Field, result0.Options) ==> imported(ww, "j5/list/v1/annotations.proto")
